@@ -58,6 +58,9 @@ def main(tier, seed, prop=PROP):
         bound += [b"a" * n, b'"' + b"a" * (n - 2) + b'"', (b"a." * n)[:n - 1] + b"a", b"a" * (n - 1) + b".",
                   b'"' + b"a" * (n - 3) + b'\\"']
     jobs.append((LG.w_list, (exe, MODES, bound, opts, prop, "boundary", True, True)))
+    ds = LG.dictionary_strings()
+    for i in range(0, len(ds), 15000):
+        jobs.append((LG.w_list, (exe, MODES, ds[i:i + 15000], opts, prop, "dictionary", i == 0, False)))
     wb = LG.width_boundary_strings(tier)
     for i in range(0, len(wb), 30):
         jobs.append((LG.w_list, (exe, MODES, wb[i:i + 30], opts, prop, "width-boundaries", False, False)))
@@ -96,7 +99,7 @@ def main(tier, seed, prop=PROP):
     return rep.finish(evaluations, rep.distinct_count,
                       "strings over a 12-class alphabet up to length %d (exhaustive), conformance suite from the reference "
                       "automaton, every byte 1..255 in every reference state, corpus+mutations, random walks to 64 KiB; "
-                      "distinct non-empty strings are counted per generator shard" % k,
+                      "distinct non-empty strings are counted per generator shard; local parts of 9 MiB under ASan and of 2^31.. bytes (thorough: to 2^32+3) in an -O2 build, built inside the driver" % k,
                       {"reference_automaton": covinfo, "enumeration_bound": k, "alphabet": [core.b2s(t) for t in TOKENS],
                        "builds": cx.builds_info(), "exhaustive": False})
 
